@@ -31,6 +31,8 @@ def scale_write(tier):
         dict(name="W_c256k", params=dict(C=0x40000, RP=1, LEVEL=0), items=[["apptext", i, 1000] for i in range(1, 401)]),
         dict(name="W_c4k", params=dict(C=4096, RP=1, LEVEL=1), items=[can(i) for i in range(1, 501)]),
         dict(name="W_bigobj", params=dict(C=0x20000, RP=0, LEVEL=0), items=[can(1), ["apptext", 2, 0x50000], can(3)]),
+        # incompressible payload, several full containers, zlib: the compressor must not die on its output bound
+        dict(name="W_random", params=dict(C=0x20000, RP=1, LEVEL=1), items=[["apptextr", i, 100000] for i in range(1, 7)]),
     ]
     if tier == "thorough":
         g += [
